@@ -3,6 +3,12 @@
 Case = a generated grammar (rule graph with chains / cycles of abstract rules,
 mixed alternatives of match and common references, nested choices, a few
 optional / repeated parts) + texts derived from it (and mutated ones).
+Grammar families: free rule graphs, "flow" grammars (one common rule is the only
+source of non-match-ness, which has to travel through towers / sparse graphs of
+nested cycles against the visiting order: the kind fixpoint needs up to 6 changing
+passes), layered value grammars (value-like abstract rules over all base types
+behind multi-token match rules), templates; half of the derived base type tokens
+are the values Python treats as false (0, 0.0, False, '').
 
 Implementation side (real textX from the tree under test): `_tx_type` and
 `_tx_inh_by` of every rule, and for every accepted text the Arpeggio parse
@@ -20,6 +26,7 @@ Direct oracle (no model): decides the property from the grammar *as written*
 rule", alternatives expanded from the AST, the documented result of an
 abstract rule evaluated on the parse tree, reachability for isinstance.
 """
+import os
 import signal
 
 from harness.core import Check, use_repo
@@ -51,9 +58,11 @@ class time_limit:
             signal.signal(signal.SIGALRM, self.old)
         return False
 
-BASE = ["INT", "ID"]  # the base types the generated grammars reference (rules of the model grammar)
 ALL_BASE = ["ID", "STRING", "BOOL", "INT", "FLOAT", "STRICTFLOAT", "NUMBER", "BASETYPE"]
-USED_BASE = ["INT", "ID"]
+BASE = ALL_BASE  # the base types the generated grammars reference (rules of the model grammar)
+# base types by weight: every one is referenced; the regex ones dominate
+USED_BASE = [("INT", 5), ("ID", 4), ("BOOL", 3), ("STRING", 3), ("FLOAT", 2), ("NUMBER", 1), ("STRICTFLOAT", 1),
+             ("BASETYPE", 1)]
 KF1 = "C03-KF1"
 
 
@@ -204,31 +213,74 @@ def spec_reach(edges, start):
 
 
 def flat(t):
+    """the matched text below a node"""
     if "t" in t:
         return t["t"]
     return "".join(flat(c) for c in t["k"])
 
 
-def spec_eval(t, kinds):
-    """value of a parse tree node by the documented semantics (names, not indexes)"""
+def base_conv(rule, raw):
+    """the Python value of a base type match (the documented conversions: INT -> int, FLOAT / STRICTFLOAT -> float,
+    BOOL -> bool, STRING -> the text between the quotes with the escaped delimiter unescaped, otherwise the text);
+    the conversion itself is C04's subject, here it only supplies the values the rule kinds pass around"""
+    try:
+        if rule == "INT":
+            return int(raw)
+        if rule in ("FLOAT", "STRICTFLOAT"):
+            return float(raw)
+        if rule == "BOOL":
+            return raw == "1" or raw.lower() == "true"
+        if rule == "STRING" and len(raw) >= 2:
+            q = raw[0]
+            return raw[1:-1].replace("\\" + q, q)
+    except ValueError:
+        pass
+    return raw
+
+
+def prim(v):
+    return {"p": str(v), "ty": type(v).__name__}
+
+
+def spec_eval(t, kinds, kf=False):
+    """value of a parse tree node by the documented semantics (names, not indexes);
+    kf=True: with the behaviour of the open finding C03-KF1 at exactly its class of nodes"""
     if "t" in t:
-        return {"p": t["t"]}
+        # a simple match: the plain Python value of its base type / the matched text
+        return prim(base_conv(t.get("r"), t["t"]))
     if "a" in t:
         raise ValueError("assignment node outside a common rule")
     kind = kinds.get(t["n"], "match")
     if kind == "match":
-        return {"p": flat(t)}
+        # a match rule: the value of its only match, or the values of its matches joined as text
+        if len(t["k"]) == 1:
+            return spec_eval(t["k"][0], kinds, kf)
+        return {"p": "".join(spec_eval(c, kinds, kf)["p"] for c in t["k"]), "ty": "str"}
     if kind == "common":
         attrs = {}
         for c in t["k"]:
             if "a" in c:
-                attrs.setdefault(c["a"], []).extend(spec_eval(x, kinds) for x in c["k"])
+                attrs.setdefault(c["a"], []).extend(spec_eval(x, kinds, kf) for x in c["k"])
         return {"o": t["n"], "a": attrs}
-    # abstract: first reference to a non-match rule of the alternative that matched, else the text
+    # abstract: first reference to a non-match rule of the alternative that matched - whatever that yields ...
     for c in t["k"]:
         if "n" in c and kinds.get(c["n"], "match") != "match":
-            return spec_eval(c, kinds)
-    return {"p": flat(t)}
+            return spec_eval(c, kinds, kf)
+    # ... else only match rules: the value of the single reference, or the concatenated text
+    if len(t["k"]) == 1:
+        return spec_eval(t["k"][0], kinds, kf)
+    if kf:
+        for c in t["k"]:
+            if "n" in c:
+                return spec_eval(c, kinds, kf)
+    return {"p": flat(t), "ty": "str"}
+
+
+def falsy(v):
+    return "p" in v and v["p"] in FALSY.get(v.get("ty"), ())
+
+
+FALSY = {"int": ("0",), "float": ("0.0", "-0.0"), "bool": ("False",), "str": ("",)}
 
 
 def all_match_with_nonterminal(t, kinds):
@@ -242,6 +294,51 @@ def all_match_with_nonterminal(t, kinds):
         ):
             return True
     return any(all_match_with_nonterminal(c, kinds) for c in t["k"])
+
+
+def sim_passes(case):
+    """(changing passes, a pass whose only changes happened in nested calls) of the multi-pass kind fixpoint, replayed
+    on the grammar as written - for the evidence only (how hard the generated rule graphs are for the fixpoint)"""
+    rules = {r["name"]: r["body"] for r in case["rules"]}
+    kind = {n: "match" for n in rules}
+    passes, nested_only = 0, False
+    while passes <= len(rules) + 1:
+        visited, changes = set(), []
+
+        def det(n, top):
+            if n in visited or n not in rules:
+                return
+            visited.add(n)
+            b = rules[n]
+            if has_asg(b):
+                if kind[n] != "common":
+                    kind[n] = "common"
+                    changes.append(top == n)
+                return
+
+            def walk(e):
+                k = e_kind(e)
+                if k == "ref":
+                    det(e["ref"], top)
+                    return kind.get(e["ref"], "match") != "match"
+                if k in ("seq", "alt"):
+                    return any(walk(x) for x in e[k])
+                if k in ("opt", "star", "plus"):
+                    return walk(e[k])
+                return False
+
+            if walk(b) and kind[n] != "abstract":
+                kind[n] = "abstract"
+                changes.append(top == n)
+
+        for n in rules:
+            det(n, n)
+        if not changes:
+            break
+        passes += 1
+        if passes > 1 and not any(changes):
+            nested_only = True
+    return passes, nested_only
 
 
 def alias_cycle(case):
@@ -301,6 +398,8 @@ def val_diff(want, got):
     defaults) is the value `want` (only the assignments that happened), else a description"""
     if "p" in want or "p" in got:
         if "p" in want and "p" in got and want["p"] == got["p"]:
+            if "ty" in want and "ty" in got and want["ty"] != got["ty"]:
+                return f"{want['ty']} {want['p']!r} expected, got {got['ty']} {got['p']!r}"
             return None
         return f"{norm_val(want)} expected, got {norm_val(got)}"
     if want["o"] != got["o"]:
@@ -373,7 +472,7 @@ class Gen:
         if c == "lit":
             return {"lit": self.kw(i, rng.below(4))}
         if c == "base":
-            return {"ref": rng.choice(USED_BASE)}
+            return {"ref": rng.weighted(USED_BASE)}
         return {"ref": rng.choice(ms)}
 
     def match_body(self, i, names, intent):
@@ -395,7 +494,7 @@ class Gen:
         else:
             cands = list(range(len(names)))
         if not cands or rng.chance(0.15):
-            return {"ref": rng.choice(USED_BASE)}
+            return {"ref": rng.weighted(USED_BASE)}
         return {"ref": names[rng.choice(cands)]}
 
     def common_body(self, i, names, intent):
@@ -425,7 +524,7 @@ class Gen:
         if c == "lit":
             return {"lit": self.kw(i, rng.below(6))}
         if c == "base":
-            return {"ref": rng.choice(USED_BASE)}
+            return {"ref": rng.weighted(USED_BASE)}
         if c == "fwd":
             return self.any_ref(i, names, intent, True)
         if c == "back":
@@ -440,10 +539,200 @@ class Gen:
         inner = self.abs_item(i, names, intent, first, False, 1)
         return {rng.choice(["opt", "star", "plus"]): inner}
 
+    def value_body(self, i, names, intent):
+        """`Value: STRING | FLOAT | BOOL | Object | Array | 'null';` of the documentation: every alternative a single
+        reference (base type, later match rule, later rule of any kind) or a keyword, in any order"""
+        rng = self.rng
+        later = names[i + 1:]
+        ms = [names[j] for j in range(i + 1, len(names)) if intent[j] == "M"]
+        alts = []
+        for _ in range(rng.weighted([(2, 3), (3, 4), (4, 3), (5, 1)])):
+            c = rng.weighted([("base", 5), ("m", 2 if ms else 0), ("later", 4), ("lit", 1)])
+            if c == "base":
+                x = {"ref": rng.weighted(USED_BASE)}
+            elif c == "m":
+                x = {"ref": rng.choice(ms)}
+            elif c == "later":
+                x = {"ref": rng.choice(later)}
+            else:
+                x = {"lit": self.kw(i, rng.below(6))}
+            if x not in alts:
+                alts.append(x)
+        return alts[0] if len(alts) == 1 else {"alt": alts}
+
+    def value_grammar(self):
+        """mixed alternatives of match and common references, layered: value rules (every alternative one reference:
+        base types, match rules, common rules, other value rules) are referenced from abstract rules whose
+        alternatives are sequences of keywords, multi-token match rules, base types, value rules and common rules
+        in any order - so plain values (also the false ones) are what the *first non-match reference* yields."""
+        rng = self.rng
+        roles = ["E"] + (["E"] if rng.chance(0.5) else []) + ["M"] + (["M"] if rng.chance(0.4) else []) + ["V"] + \
+                (["V"] if rng.chance(0.5) else []) + ["C"] + (["C"] if rng.chance(0.3) else [])
+        if rng.chance(0.3):
+            roles = rng.shuffle(roles)
+        if rng.chance(0.5) or roles[0] != "E":
+            roles = ["K"] + roles
+        names = [f"R{i}" for i in range(len(roles))]
+        # rules of one role, optionally only those defined after rule `after` (layered / value rules refer forward)
+        of = lambda kind, after=-1: [names[j] for j in range(len(roles)) if roles[j] == kind and j > after]
+        rules = []
+        for i, role in enumerate(roles):
+            if role == "K":
+                # the container holds what the first layered rule yields (objects and plain values side by side)
+                body = {"seq": [{"lit": self.kw(i)}, {"asg": ["a0", rng.choice(["+=", "+=", "=", "*="]), {"ref": of("E")[0]}]}]}
+            elif role == "C":
+                body = {"seq": [{"lit": self.kw(i)},
+                                {"asg": ["a0", "=", {"ref": rng.choice([rng.weighted(USED_BASE)] + of("V"))}]}]}
+            elif role == "M":
+                body = rng.choice([{"seq": [{"lit": self.kw(i)}, {"lit": self.kw(i, 1)}]},
+                                   {"seq": [{"lit": self.kw(i)}, {"ref": rng.weighted(USED_BASE)}]},
+                                   {"seq": [{"lit": self.kw(i)}, {"ref": rng.weighted(USED_BASE)}, {"lit": self.kw(i, 1)}]},
+                                   {"alt": [{"lit": self.kw(i)}, {"seq": [{"lit": self.kw(i, 1)}, {"ref": "INT"}]}]}])
+            elif role == "V":
+                alts = []
+                pool = [("base", 8), ("m", 1), ("c", 3), ("v", 2 if of("V", i) else 0), ("lit", 1)]
+                vbase = [("INT", 4), ("BOOL", 3), ("STRING", 3), ("FLOAT", 2), ("NUMBER", 2), ("STRICTFLOAT", 1), ("ID", 1),
+                         ("BASETYPE", 1)]
+                for _ in range(rng.weighted([(2, 3), (3, 4), (4, 3)])):
+                    c = rng.weighted(pool)
+                    x = {"base": lambda: {"ref": rng.weighted(vbase)}, "m": lambda: {"ref": rng.choice(of("M"))},
+                         "c": lambda: {"ref": rng.choice(of("C"))}, "v": lambda: {"ref": rng.choice(of("V", i))},
+                         "lit": lambda: {"lit": self.kw(i, rng.below(4))}}[c]()
+                    if x not in alts:
+                        alts.append(x)
+                if not any(e_kind(x) == "ref" and x["ref"] in of("C") + of("V", i) for x in alts):
+                    alts.insert(rng.below(len(alts) + 1), {"ref": rng.choice(of("C"))})
+                body = alts[0] if len(alts) == 1 else {"alt": alts}
+            else:
+                alts = []
+                item = {"lit": lambda: {"lit": self.kw(i, a)}, "m": lambda: {"ref": rng.choice(of("M"))},
+                        "v": lambda: {"ref": rng.choice(of("V"))}, "c": lambda: {"ref": rng.choice(of("C"))},
+                        "base": lambda: {"ref": rng.weighted(USED_BASE)}, "e": lambda: {"ref": rng.choice(of("E", i))}}
+                for a in range(rng.weighted([(1, 2), (2, 4), (3, 3)])):
+                    # keywords / match rules, then the reference that decides the result, then anything
+                    seq = [item[rng.weighted([("lit", 2), ("m", 3)])]() for _ in range(rng.weighted([(0, 3), (1, 5), (2, 2)]))]
+                    seq.append(item[rng.weighted([("v", 6), ("c", 2), ("base", 1), ("m", 1), ("e", 1 if of("E", i) else 0)])]())
+                    seq += [item[rng.weighted([("lit", 2), ("m", 2), ("v", 2), ("c", 1)])]()
+                            for _ in range(rng.weighted([(0, 6), (1, 3), (2, 1)]))]
+                    if rng.chance(0.15) and len(seq) > 1:
+                        seq = [{"alt": [seq[0], {"lit": self.kw(i, 6)}]}] + seq[1:]
+                    alts.append(seq[0] if len(seq) == 1 else {"seq": seq})
+                if of("E", i) and not any(r in of("E", i) for x in alts for r in refs_of(x)):
+                    # every layered rule is reachable from the first one
+                    alts.insert(rng.below(len(alts) + 1), rng.choice([{"ref": of("E", i)[0]},
+                                {"seq": [{"ref": rng.choice(of("M"))}, {"ref": of("E", i)[0]}]}]))
+                body = alts[0] if len(alts) == 1 else {"alt": alts}
+            rules.append({"name": names[i], "body": body})
+        return rules
+
+    # ------------------------------------------------------------------ flow grammars
+    def flow_grammar(self, tower):
+        """One common rule C is the only source of non-match-ness; the abstract-to-be rules T0..Td-1 get it along
+        a flow tree (T0 references C, every other Ti references its flow parent), while further references make
+        the rule graph cyclic.  tower: parent(Ti) = Ti-1 and Ti also references Ti+1 - nested cycles; visited from
+        T0, every Ti is examined while Ti-1 is in progress and still a match rule, so the kinds settle one rule
+        per pass (d changing passes).  sparse: random flow tree, references down the tree and 0..2 anywhere.
+        The definition order (= visiting order) is the flow order or a random permutation; references may stand
+        first in an alternative when that is not left recursive; alias bodies, groups, match rules and keywords
+        around the references vary."""
+        rng = self.rng
+        d = rng.weighted([(3, 4), (4, 3), (5, 2), (6, 1)]) if tower else rng.weighted([(3, 2), (4, 3), (5, 3), (6, 2)])
+        # flow structure over flow indexes 0..d-1
+        parent = {t: (t - 1 if tower or rng.chance(0.5) else rng.below(t)) for t in range(1, d)}
+        extra = {t: [] for t in range(d)}
+        for t in range(d):
+            if tower:
+                if t + 1 < d:
+                    extra[t].append(t + 1)
+                if rng.chance(0.15):
+                    extra[t].append(rng.below(d))
+            else:
+                # mostly down the flow tree (a rule is then examined while its flow parent is in progress), some anywhere
+                extra[t] += [c for c in range(t + 1, d) if parent[c] == t and rng.chance(0.7)]
+                for _ in range(rng.weighted([(0, 4), (1, 4), (2, 1)])):
+                    extra[t].append(rng.below(d))
+        # definition order: roles = flow indexes, "C", optional match rule "M", optional common container "K" in front
+        roles = list(range(d)) + ["C"]
+        has_m = rng.chance(0.5)
+        if has_m:
+            roles.append("M")
+        if not rng.chance(0.55):
+            roles = rng.shuffle(roles)
+        container = rng.chance(0.45) or roles[0] in ("C", "M")
+        if container:
+            roles = ["K"] + roles
+        names = [f"R{i}" for i in range(len(roles))]
+        pos = {r: i for i, r in enumerate(roles)}
+        name_of = lambda role: names[pos[role]]
+        left = {n: set() for n in names}  # rule -> rules that can stand leftmost in it
+
+        def reaches(a, b):
+            seen, todo = set(), [a]
+            while todo:
+                x = todo.pop()
+                if x == b:
+                    return True
+                if x not in seen:
+                    seen.add(x)
+                    todo.extend(left.get(x, ()))
+            return False
+
+        rules = []
+        for i, role in enumerate(roles):
+            me = names[i]
+            if role == "K":
+                tgt = name_of(rng.below(d)) if rng.chance(0.8) else name_of(0)
+                body = {"seq": [{"lit": self.kw(i)}, {"asg": ["a0", rng.choice(["+=", "+=", "="]), {"ref": tgt}]}]}
+            elif role == "C":
+                body = {"seq": [{"lit": self.kw(i)}, {"asg": ["a0", "=", {"ref": rng.weighted(USED_BASE)}]}]}
+                if rng.chance(0.3):
+                    body["seq"].append({"opt": {"asg": ["a1", "=", {"ref": name_of(rng.below(d))}]}})
+            elif role == "M":
+                body = rng.choice([{"seq": [{"lit": self.kw(i)}, {"lit": self.kw(i, 1)}]},
+                                   {"seq": [{"lit": self.kw(i)}, {"ref": rng.weighted(USED_BASE)}]},
+                                   {"alt": [{"lit": self.kw(i)}, {"seq": [{"lit": self.kw(i, 1)}, {"ref": "INT"}]}]}])
+            else:
+                t = role
+                targets = [("C" if t == 0 else parent[t])] + extra[t]
+                # the flow reference is not always the first alternative
+                targets = rng.shuffle(targets) if rng.chance(0.6) else targets[1:] + targets[:1]
+                alts = []
+                for a, tg in enumerate(targets):
+                    tn = name_of(tg)
+                    kwa = {"lit": self.kw(i, a)}
+                    form = rng.weighted([("bare", 4), ("kx", 3), ("kxk", 2), ("mx", 1 if has_m else 0), ("xk", 1),
+                                         ("gx", 1)])
+                    if form in ("bare", "xk") and (reaches(tn, me) or tn == me):
+                        form = "kx"  # a leftmost reference that would be left recursive gets a keyword in front
+                    if form in ("bare", "xk"):
+                        left[me].add(tn)
+                    if form == "bare":
+                        alt = {"ref": tn}
+                    elif form == "kx":
+                        alt = {"seq": [kwa, {"ref": tn}]}
+                    elif form == "kxk":
+                        alt = {"seq": [kwa, {"ref": tn}, {"lit": self.kw(i, 7)}]}
+                    elif form == "mx":
+                        alt = {"seq": [{"ref": name_of("M")}, {"ref": tn}]}
+                    elif form == "xk":
+                        alt = {"seq": [{"ref": tn}, {"lit": self.kw(i, 7)}]}
+                    else:
+                        g = [kwa, {"ref": name_of("M")} if has_m else {"lit": self.kw(i, 6)}]
+                        alt = {"seq": [{"alt": g}, {"ref": tn}]}
+                    alts.append(alt)
+                if rng.chance(0.25):  # a match-only alternative
+                    alts.insert(rng.below(len(alts) + 1),
+                                rng.choice([{"lit": self.kw(i, 5)}, {"seq": [{"lit": self.kw(i, 5)}, {"ref": rng.weighted(USED_BASE)}]}]))
+                body = alts[0] if len(alts) == 1 else {"alt": alts}
+            rules.append({"name": me, "body": body})
+        return rules
+
     def abstract_body(self, i, names, intent, undocumented):
         rng = self.rng
         if rng.chance(0.08) and i + 1 < len(names):
             return {"ref": names[rng.randint(i + 1, len(names) - 1)]}  # A: B;
+        if rng.chance(0.2) and i + 1 < len(names):
+            return self.value_body(i, names, intent)
         alts = []
         for _ in range(rng.weighted([(1, 2), (2, 5), (3, 3)])):
             k = rng.weighted([(1, 4), (2, 4), (3, 3), (4, 1)])
@@ -530,10 +819,8 @@ class Deriver:
             out.append(e["lit"])
         elif k == "ref":
             n = e["ref"]
-            if n == "INT":
-                out.append(str(rng.randint(1, 99)))
-            elif n == "ID":
-                out.append("x" + str(rng.randint(0, 9)))
+            if n in TOKENS:
+                out.append(self.token(n))
             else:
                 self.gen(self.rules[n], fuel - 1, out)
         elif k == "seq":
@@ -561,9 +848,24 @@ class Deriver:
                 self.gen(rhs, fuel, out)
             else:
                 lo = 1 if op == "+=" else 0
-                reps = rng.randint(lo, 2) if self.d(rhs) <= fuel else lo
+                reps = rng.randint(lo, 3) if self.d(rhs) <= fuel else lo
                 for _ in range(reps):
                     self.gen(rhs, fuel, out)
+
+    def token(self, base):
+        """a token of a base type; about half are the values Python treats as false (0, 0.0, False, '')"""
+        rng = self.rng
+        if base == "BASETYPE":
+            base = rng.choice(["NUMBER", "FLOAT", "BOOL", "ID", "STRING"])
+        if base == "NUMBER":
+            base = rng.choice(["STRICTFLOAT", "INT"])
+        if base == "ID":
+            return rng.weighted([("x" + str(rng.randint(0, 9)), 6), ("_", 1), ("false", 1), ("y_" + str(rng.randint(10, 20)), 1)])
+        if rng.chance(0.5):
+            return rng.choice(TOKENS[base][0])
+        if base == "INT":
+            return str(rng.randint(1, 99)) if rng.chance(0.85) else "-" + str(rng.randint(1, 9))
+        return rng.choice(TOKENS[base][1])
 
     def sentence(self, root, fuel):
         if self.depth[root] >= self.INF:
@@ -571,6 +873,20 @@ class Deriver:
         out = []
         self.gen({"ref": root}, max(fuel, self.depth[root]) + 1, out)
         return " ".join(out)
+
+
+# base type -> (tokens whose value is false in Python, other tokens); FLOAT / STRICTFLOAT / INT texts are the
+# canonical texts of their values except where marked (the conversion is C04's subject)
+TOKENS = {
+    "INT": (["0"], []),
+    "ID": ([], []),
+    "BOOL": (["false", "False", "0"], ["true", "True", "1"]),
+    "STRING": (["''", '""'], ["'ab'", '"q"', "'it\\'s'", '"#0a"', "'0'"]),
+    "FLOAT": (["0.0", "0"], ["1.5", "2.25", "7", "1e2"]),  # "0", "7", "1e2": not the canonical text of the value
+    "STRICTFLOAT": (["0.0", "0."], ["3.5", ".5", "1e2"]),
+    "NUMBER": ([], []),
+    "BASETYPE": ([], []),
+}
 
 
 def mutate(text, rng):
@@ -604,6 +920,7 @@ class Prop(Check):
         "RuleTypes.C03_match_plain",
         "RuleTypes.C03_result_first_nonmatch",
         "RuleTypes.C03_result_concat_terminals",
+        "RuleTypes.C03_result_single_child",
         "RuleTypes.C03_result_all_match_partial",
         "RuleTypes.C03_result_all_match_full_false",
         "RuleTypes.C03_pinned_overapprox_false",
@@ -614,18 +931,30 @@ class Prop(Check):
     DRIVER = "Drivers/RuleTypes.lean"
     QUICK_CASES = 380
     THOROUGH_CASES = 12000
-    RULE = ("grammars of 2..8 rules (common / abstract / match by construction; forward and backward references, "
-            "cycles and self references of abstract rules, alias rules, nested choices, mixed match/common "
-            "alternatives, ~15% with optional / repeated parts) with 3 derived + 1 mutated text each; non-trivial = "
-            "the grammar loads, has an abstract rule, and an accepted text's parse tree contains an abstract rule's node")
+    PROCS_QUICK = int(os.environ.get("VERIF_PROCS", "4"))
+    PROCS_THOROUGH = int(os.environ.get("VERIF_PROCS", "16"))
+    RULE = ("grammars of 2..9 rules with 3 (value family: 5) derived + 1 mutated text each, four families: free rule graphs "
+            "(common / abstract / match by construction; forward and backward references, cycles and self references of "
+            "abstract rules, alias rules, nested choices, mixed match/common alternatives, value-like rules, ~15% with "
+            "optional / repeated parts), flow grammars (a single common rule whose non-match-ness travels through a "
+            "tower of nested cycles or a sparse random graph against the definition order: 1..6 changing passes of the "
+            "kind fixpoint, references also leftmost where not left recursive), value grammars (layers of value rules "
+            "over all eight base types, multi-token match rules and common rules inside sequences), 6 templates; half of "
+            "the INT / FLOAT / BOOL / STRING / NUMBER tokens are the values Python treats as false (0, 0.0, False, ''); "
+            "non-trivial = the grammar loads, has an abstract rule, and an accepted text's parse tree contains an "
+            "abstract rule's node")
     MODELLED = ("hand-modelled (RuleTypes.lean): lang.py _determine_rule_types (multi-pass fixpoint, per-pass visited set), "
                 "_add_inherited_classes/_add_reffered_classes, model.py textx_isinstance (visited set), process_node "
-                "rule-kind dispatch; tie X: kinds, _tx_inh_by (ordered), isinstance matrix and model values vs the Lean "
-                "driver fed with the resolved parser model and Arpeggio's parse tree; not exhibited: parsing itself "
-                "(Arpeggio), value conversion of base types (C04), attribute defaults")
+                "rule-kind dispatch incl. which text is joined where (converted values inside a match rule, matched text "
+                "for an abstract rule's simple matches); tie X: kinds, _tx_inh_by (ordered), isinstance matrix and model "
+                "values vs the Lean driver fed with the resolved parser model and Arpeggio's parse tree; not exhibited: "
+                "parsing itself (Arpeggio), the value conversion of base types (C04; supplied per terminal by the harness), "
+                "attribute defaults")
     ASSUMPTIONS = [
         "the rule skeleton sent to the model is read from cls._tx_peg_rule / cls._tx_attrs after _resolve_rule_refs",
-        "primitive values are compared by their text (generated INT tokens are canonical decimals)",
+        "primitive values are compared by the text of the Python value (str(v)); the direct oracle also compares the Python "
+        "type; the converted value of a base-type terminal is computed by the harness (base_conv: the documented "
+        "conversions) and handed to the model as data",
         "isinstance oracle skipped for classes whose reachability passes an abstract rule with optional/repeated parts "
         "(outside the documented fragment; mirror correspondence still applies)",
     ]
@@ -634,13 +963,16 @@ class Prop(Check):
     def gen(self, rng, n, tier):
         g = Gen(rng)
         for i in range(n):
+            fam = "template"
             if i % 25 == 0:
                 rules = [{"name": a, "body": b} for a, b in TEMPLATES[(i // 25) % len(TEMPLATES)]()]
             else:
-                rules = g.grammar(tier)
+                fam = rng.weighted([("free", 10), ("tower", 3), ("sparse", 3), ("value", 4)])
+                rules = g.grammar(tier) if fam == "free" else g.value_grammar() if fam == "value" else \
+                    g.flow_grammar(fam == "tower")
             case = {"rules": rules, "texts": []}
             d = Deriver(rules, rng)
-            for t in range(3):
+            for t in range(5 if fam == "value" else 3):
                 s = d.sentence(rules[0]["name"], 2 + t * 2)
                 if s is not None and s not in case["texts"]:
                     case["texts"].append(s)
@@ -729,7 +1061,7 @@ class Prop(Check):
 
         def tree(node):
             if isinstance(node, arpeggio.Terminal):
-                return {"t": str(node.value)}
+                return {"t": str(node.value), "r": str(node.rule_name)}
             rn = node.rule_name
             if rn.startswith("__asgn"):
                 op = rn.split("_")[-1]
@@ -817,7 +1149,7 @@ class Prop(Check):
 
         def conv(t):
             if "t" in t:
-                return t
+                return {"t": t["t"], "v": str(base_conv(t.get("r"), t["t"]))}
             if "a" in t:
                 return {"a": t["a"], "k": [conv(c) for c in t["k"]]}
             return {"n": idx[t["n"]], "k": [conv(c) for c in t["k"]]}
@@ -944,25 +1276,7 @@ class Prop(Check):
         return KF1
 
     def eval_kf(self, t, kinds):
-        if "t" in t:
-            return {"p": t["t"]}
-        kind = kinds.get(t["n"], "match")
-        if kind == "match":
-            return {"p": flat(t)}
-        if kind == "common":
-            attrs = {}
-            for c in t["k"]:
-                if "a" in c:
-                    attrs.setdefault(c["a"], []).extend(self.eval_kf(x, kinds) for x in c["k"])
-            return {"o": t["n"], "a": attrs}
-        for c in t["k"]:
-            if "n" in c and kinds.get(c["n"], "match") != "match":
-                return self.eval_kf(c, kinds)
-        if len(t["k"]) > 1:
-            for c in t["k"]:
-                if "n" in c:
-                    return {"p": flat(c)}
-        return {"p": flat(t)}
+        return spec_eval(t, kinds, kf=True)
 
     # ------------------------------------------------------------- evidence
     def nontrivial(self, case, obs):
@@ -986,13 +1300,17 @@ class Prop(Check):
     def extra_evidence(self, cases, obs, outs):
         d = {"loaded": 0, "rejected_grammars": 0, "texts": 0, "accepted": 0, "objects": 0, "isinstance_pairs": 0,
              "with_abstract_cycle": 0, "with_undocumented_ops": 0, "abstract_nodes_multi_child": 0, "kinds": {},
-             "rules": 0}
+             "rules": 0, "changing_passes": {}, "nested_only_change_pass": 0, "false_valued_abstract_results": 0,
+             "false_valued_after_match_nonterminal": 0, "false_valued_attribute_values": 0, "base_type_terminals": {}}
         for c, o in zip(cases, obs):
             if not isinstance(o, dict) or o.get("load") != "ok":
                 d["rejected_grammars"] += 1
                 continue
             d["loaded"] += 1
             kinds = spec_kinds(c)
+            np, nested = sim_passes(c)
+            d["changing_passes"][str(np)] = d["changing_passes"].get(str(np), 0) + 1
+            d["nested_only_change_pass"] += 1 if nested else 0
             d["rules"] += len(kinds)
             for k in kinds.values():
                 d["kinds"][k] = d["kinds"].get(k, 0) + 1
@@ -1011,7 +1329,27 @@ class Prop(Check):
                     d["objects"] += len(r["objs"])
                     d["isinstance_pairs"] += sum(len(m) for _, m in r["objs"])
                     d["abstract_nodes_multi_child"] += self.count_multi(r["tree"], kinds)
+                    self.count_false(r["tree"], kinds, d)
         return {"distribution": d}
+
+    def count_false(self, t, kinds, d):
+        """how often the values Python treats as false travel through abstract rules / into attributes"""
+        if "t" in t:
+            if t.get("r") in ALL_BASE:
+                d["base_type_terminals"][t["r"]] = d["base_type_terminals"].get(t["r"], 0) + 1
+            return
+        if "a" in t:
+            d["false_valued_attribute_values"] += sum(1 for c in t["k"] if falsy(spec_eval(c, kinds)))
+        elif kinds.get(t["n"]) == "abstract" and falsy(spec_eval(t, kinds)):
+            d["false_valued_abstract_results"] += 1
+            for c in t["k"]:
+                if "n" in c and kinds.get(c["n"], "match") != "match":
+                    break
+                if "n" in c and len(t["k"]) > 1:
+                    d["false_valued_after_match_nonterminal"] += 1
+                    break
+        for c in t["k"]:
+            self.count_false(c, kinds, d)
 
     def count_multi(self, t, kinds):
         if "t" in t:
